@@ -415,7 +415,7 @@ func GenC03(seed uint64) *Scenario {
 	g := newGen("C03", seed)
 	g.sc.Cfg.MaxLatNs = 300_000
 	subs := g.accounts(1+g.r.Intn(2), 2, func() int64 { return 3_000_000_000 })
-	shape := g.r.Intn(5)
+	shape := g.r.Intn(6)
 	g.sc.Shape = fmt.Sprintf("shape=%d", shape)
 	var ops []Op
 	s := &sessState{name: "s1", supi: supiN(1), rgs: subs[supiN(1)]}
@@ -449,6 +449,20 @@ func GenC03(seed uint64) *Scenario {
 			create.Units[0].Containers = append(create.Units[0].Containers, g.offline())
 		}
 		ops = append(ops, create, mk("update", 1+g.r.Intn(500), false), mk("release", 1, true))
+	case 5: // boundary walk: fill the record to just below the limit, then cross it in very small steps
+		ops = append(ops, create)
+		fill := 2700 + g.r.Intn(150)
+		for fill > 0 {
+			n := 300 + g.r.Intn(500)
+			if n > fill {
+				n = fill
+			}
+			ops = append(ops, mk("update", n, false))
+			fill -= n
+		}
+		for i, n := 0, 60+g.r.Intn(120); i < n; i++ {
+			ops = append(ops, mk("update", 1+g.r.Intn(3), false))
+		}
 	default: // two sessions, moderate, several splits
 		ops = append(ops, create)
 		s2 := &sessState{name: "s2", supi: s.supi, rgs: s.rgs}
